@@ -31,3 +31,21 @@ Proof.
     vm_compute. discriminate.
   - exists wit_heap, 9%Z. split; [exact wit_heap_wf|]. vm_compute. discriminate.
 Qed.
+
+(* receivers sharing storage with a group constant; output cleared before the operand is read *)
+Lemma constant_sharing_refuted :
+  (* Base() as a struct copy of the generator: a later in-place write to the receiver (object 1)
+     changes the constant (object 0) *)
+  (exists (h : heap Z) x, wf h /\ look (run_hops [HWrite 1%nat 0%nat x] (shallow_copy 1%nat 0%nat [0%nat] h)) 0%nat 0%nat
+                                   <> look h 0%nat 0%nat) /\
+  (exists e s, env_ok mul_output_cleared_first e /\
+               fst (run_aliased Z opn (dl_interp 101 0) junk mul_output_cleared_first e s) (e recv) 0%nat
+               <> fst (run_fresh Z opn (dl_interp 101 0) junk mul_output_cleared_first e s) recv 0%nat).
+Proof.
+  split.
+  - exists wit_heap, 9%Z. split; [exact wit_heap_wf|]. vm_compute. discriminate.
+  - exists (fun v => match v with 1%nat => 1%nat | _ => 0%nat end), (fun c _ => if Nat.eqb c 0 then 5%Z else 3%Z).
+    split.
+    + intros v [<-|[]]. vm_compute. discriminate.
+    + vm_compute. discriminate.
+Qed.
